@@ -171,6 +171,7 @@ type Sim struct {
 	TimedOut bool
 	StepsOut bool
 	End      time.Duration // simulated time at which the scheduler stopped
+	StuckDump string       // goroutine stacks taken when the run ended unfinished
 }
 
 func goid() int64 {
@@ -632,6 +633,9 @@ func (s *Sim) Run(app func()) {
 		}
 	}
 	s.End = s.Now()
+	if !s.finished && !s.failed.Load() {
+		s.StuckDump = GoroutineDump()
+	}
 	s.tracef("end %v", s.finished)
 	s.Stop()
 }
